@@ -121,6 +121,117 @@ theorem error_line_cause (o : Opts) (st : St) (l : Str) (h : step o st l = .erro
               · simp [h0, hd, hi, he] at h
           · simp [h0, hd] at h
 
+theorem run_panic_at (o : Opts) (st : St) (k : Nat) (ls : List Str) (c : PanicClass)
+    (h : run o st k ls = .inl (.panic c)) :
+    ∃ pre l post st', ls = pre ++ l :: post ∧
+      run o st k pre = .inr st' ∧ step o st' l = .panic c := by
+  induction ls generalizing st k with
+  | nil => simp [run] at h
+  | cons l ls ih =>
+    rw [run] at h
+    cases hs : step o st l with
+    | next s' =>
+      rw [hs] at h
+      obtain ⟨pre, l', post, st', h1, h3, h4⟩ := ih s' (k + 1) h
+      refine ⟨l :: pre, l', post, st', by simp [h1], ?_, h4⟩
+      simp [run, hs, h3]
+    | error => rw [hs] at h; simp at h
+    | panic c' =>
+      cases c; cases c'
+      exact ⟨[], l, ls, st, rfl, by simp [run], hs⟩
+
+/-- **Where the tolerated panic comes from.** When decoding panics there is a first line at which
+    it does; every line before it was consumed without error, and that line is a well-formed
+    GEDCOM line (inside the line grammar, not a family-role line before any family) whose level
+    is more than one deeper than the number of open levels, read while invalid indents are not
+    allowed.  Nothing else — no byte, no blank or malformed line, no option — makes the decoder
+    panic. -/
+theorem panic_line_cause (o : Opts) (s : Str) (c : PanicClass) (h : decode o s = .panic c) :
+    ∃ pre l post st pl, splitLines (stripBOM s).2 = pre ++ l :: post ∧
+      run o ⟨[], [], false⟩ 1 pre = .inr st ∧
+      parseLine l = some pl ∧ pl.level ≠ 0 ∧ st.stack.length ≤ pl.level - 1 ∧
+      o.allowInvalidIndents = false := by
+  unfold decode at h
+  simp only at h
+  split at h
+  · rename_i out hrun
+    subst h
+    obtain ⟨pre, l, post, st', h1, h3, h4⟩ := run_panic_at o _ 1 _ c hrun
+    refine ⟨pre, l, post, st', ?_⟩
+    unfold step at h4
+    split at h4
+    · simp at h4
+    · split at h4
+      · unfold unparsable at h4
+        repeat' split at h4
+        all_goals simp at h4
+      · rename_i pl hp
+        split at h4
+        · unfold unparsable at h4
+          repeat' split at h4
+          all_goals simp at h4
+        · refine ⟨pl, h1, h3, hp, ?_⟩
+          unfold place at h4
+          by_cases h0 : pl.level = 0
+          · simp [h0] at h4
+          · by_cases hd : st'.stack.length ≤ pl.level - 1
+            · cases hi : o.allowInvalidIndents
+              · exact ⟨h0, hd, rfl⟩
+              · by_cases he : st'.stack = [] <;> simp [h0, hd, hi, he] at h4
+            · simp [h0, hd] at h4
+  · simp at h
+
+theorem run_ok_steps (o : Opts) (st st' : St) (k : Nat) (ls : List Str)
+    (h : run o st k ls = .inr st') :
+    ∀ pre l post, ls = pre ++ l :: post → ∃ s1 s2, run o st k pre = .inr s1 ∧ step o s1 l = .next s2 := by
+  induction ls generalizing st k with
+  | nil => intro pre l post hls; simp at hls
+  | cons x xs ih =>
+    intro pre l post hls
+    rw [run] at h
+    cases hs : step o st x with
+    | next s1 =>
+      rw [hs] at h
+      cases pre with
+      | nil =>
+        simp only [List.nil_append, List.cons.injEq] at hls
+        obtain ⟨rfl, _⟩ := hls
+        exact ⟨st, s1, by simp [run], hs⟩
+      | cons p ps =>
+        simp only [List.cons_append, List.cons.injEq] at hls
+        obtain ⟨rfl, hxs⟩ := hls
+        obtain ⟨a, b, h1, h2⟩ := ih s1 (k + 1) h ps l post hxs
+        exact ⟨a, b, by simp [run, hs, h1], h2⟩
+    | error => rw [hs] at h; simp at h
+    | panic c => rw [hs] at h; simp at h
+
+theorem run_inl_not_ok (o : Opts) (st : St) (k : Nat) (ls : List Str) (d : Doc) :
+    run o st k ls ≠ .inl (.ok d) := by
+  induction ls generalizing st k with
+  | nil => simp [run]
+  | cons l ls ih =>
+    rw [run]
+    cases hs : step o st l with
+    | next s' => exact ih s' (k + 1)
+    | error => simp
+    | panic c => simp
+
+/-- **A document is returned exactly when every line is consumed.** `decode` answers `.ok`
+    if and only if no line of the input makes the loop fail: the three outcome classes are
+    decided line by line, in order, and nothing after the last line can fail. -/
+theorem ok_iff_every_line_consumed (o : Opts) (s : Str) :
+    (∃ d, decode o s = .ok d) ↔
+    ∃ st, run o ⟨[], [], false⟩ 1 (splitLines (stripBOM s).2) = .inr st := by
+  unfold decode
+  simp only
+  cases hrun : run o ⟨[], [], false⟩ 1 (splitLines (stripBOM s).2) with
+  | inl out =>
+    simp only [reduceCtorEq, exists_false, iff_false, not_exists]
+    intro d hd
+    subst hd
+    exact run_inl_not_ok o _ _ _ d hrun
+  | inr st => simp
+
 /-! Non-vacuity (tests on literals): the three outcome classes occur. -/
 example : decode ⟨false, false⟩ [49, 32, 78] = .panic .indentTooLarge := by
   simp [decode, stripBOM, BOM, List.isPrefixOf, splitLines, splitLines.go, run, step, place, parseLine, parsePtr,
